@@ -429,10 +429,16 @@ func Render(s Spec) *Program {
 			useTmpl += "\nemit(sprint(\"sinku \", len(sinku@MKw)))\n"
 		}
 		provBody := expand(provTmpl, fi, f, "", f.Prov, f.Kind, def.mayRemain, &p.Names, seen)
+		// declarations placed in the user's file belong to the user package: expand
+		// them first so that their names are attributed to it
+		useDeclText := ""
+		if useDeclTmpl != "" {
+			useDeclText = expand(useDeclTmpl, fi, f, q, f.User, f.Kind, def.mayRemain, &p.Names, seen)
+		}
 		useBody := expand(useTmpl, fi, f, q, f.Prov, f.Kind, def.mayRemain, &p.Names, seen)
 		useFunc := fmt.Sprintf("// %s runs feature %d (%s).\nfunc %s(emit func(string), args []string) {\n%s\n}\n", useFn, fi, f.Kind, useFn, indent(useBody))
-		if useDeclTmpl != "" {
-			useFunc = expand(useDeclTmpl, fi, f, q, f.User, f.Kind, def.mayRemain, &p.Names, seen) + "\n" + useFunc
+		if useDeclText != "" {
+			useFunc = useDeclText + "\n" + useFunc
 		}
 		provFile := fileName(prov.Dir, fmt.Sprintf("prov_%s.go", strings.ToLower(mk)))
 		p.Names = append(p.Names, NameInfo{Name: fmt.Sprintf("prov_%s.go", strings.ToLower(mk)), Kind: "file", Pkg: f.Prov, Feat: f.Kind})
